@@ -227,7 +227,7 @@ package bytecode
 //@ func generateSetPattern [C13 C12]
 //@   noframe
 //@   requires state != nil && state.globalSubroutines != nil
-//@   loop 2 invariant private: ctxOk(info) && info.context == PREDICATE && !info.inLoop && fresh(info.environment) [C12]
+//@   loop 2 invariant private: ctxOk(info) && info.context == PREDICATE && !info.inLoop && fresh(info.environment) [C12 C13]
 //@   loop 2 invariant initial: rangeindex == -1 ==> initialEnv(info) [C12]
 //@   loop 2 invariant noerror: rangeindex >= 0 ==> info.currentType != PTERROR [C12]
 //@   loop 1 invariant scope: rangeindex == -1 ==> fresh(state.variables) && state.variables != nil && (forall k Str :: { select(domain(state.variables), k) } !has(state.variables, k))
